@@ -1374,6 +1374,12 @@ class Evaluator:
                         base.f = (lambda i, cc: vf(cc))
                     return
                 raise Unsupported("whole-pit store (line %d)" % lineno)
+            if isinstance(r, SliceV) and r.lo is None and r.hi is None and isinstance(c, (list, tuple)) \
+                    and all(is_scalar(x) and not is_z3(x) for x in c) and is_scalar(v):
+                # pit[:, [c1, c2, ...]] = scalar (broadcast over the listed columns)
+                for cc in c:
+                    self.store_subscript(base, (r, cc), v, lineno, env, aug)
+                return
             if is_scalar(r) and is_scalar(c):
                 if isinstance(env, LoopEnv):
                     return env.write(self, base, c, r, v, lineno)
